@@ -3,8 +3,10 @@ package otto
 func (rt *runtime) newErrorObject(name string, message Value, stackFramesToPop int) *object {
 	obj := rt.newClassObject(classErrorName)
 	if message.IsDefined() {
-		err := newError(rt, name, stackFramesToPop, "%s", message.string())
-		obj.defineProperty("message", err.messageValue(), 0o111, false)
+		text := message.string()
+		err := newError(rt, name, stackFramesToPop, "%s", text)
+		// ToString(message), also when that is the empty string (15.11.1.1).
+		obj.defineProperty("message", stringValue(text), 0o111, false)
 		obj.value = err
 	} else {
 		obj.value = newError(rt, name, stackFramesToPop)
